@@ -202,6 +202,96 @@ def py_indent_cols(lines):
         return False
 
 
+# ---------------------------------------------------------------------------------------------
+# statement recognisers: the real RE_* patterns, and the real dispatch loop under recording proxies
+import re as _re
+
+RX_NAMES = sorted(n for n in dir(P) if n.startswith("RE_") and isinstance(getattr(P, n), _re.Pattern))
+RX_REAL = {n: getattr(P, n) for n in RX_NAMES}
+RXLOG = []
+
+
+class _RxProxy:
+    """stands in for a compiled pattern in the parser module's globals; records every match / finditer"""
+
+    def __init__(self, name, pat):
+        self._name, self._pat = name, pat
+
+    def match(self, s, *a):
+        m = self._pat.match(s, *a)
+        RXLOG.append([RX_NAMES.index(self._name), bool(m)])
+        return m
+
+    def finditer(self, s, *a):
+        ms = list(self._pat.finditer(s, *a))
+        RXLOG.append([RX_NAMES.index(self._name), bool(ms)])
+        return iter(ms)
+
+    def __getattr__(self, a):
+        return getattr(self._pat, a)
+
+
+def do_rxall(line):
+    """every RE_* pattern on the line: match() for ^...$ patterns, a non-empty finditer() for the searched one"""
+    out = []
+    for n in RX_NAMES:
+        pat = RX_REAL[n]
+        out.append(bool(list(pat.finditer(line))) if not pat.pattern.startswith("^") else bool(pat.match(line)))
+    return out
+
+
+def do_dispatch(line, sets):
+    """the real _parse_simple_lines on the one-line snippet [line] with the given device-name sets;
+    -> patterns tried in order with their outcome, whether _handle_assignment_ast took the line,
+       what came out (exception kind / node class names / the hook's reason for a skipped line)"""
+    hook = getattr(P, "_VERIF_IGNORED", None)
+    if hook is not None:
+        del hook[:]
+    del RXLOG[:]
+    asg = []
+    orig_asg = P._handle_assignment_ast
+
+    def rec_asg(*a, **k):
+        try:
+            r = orig_asg(*a, **k)
+        except BaseException:
+            asg.append(True)
+            raise
+        asg.append(r is not None)
+        return r
+    ctx = {"target_port": None, "vars": {}, "globals": [], "var_types": {}, "var_declared": set(), "helpers": set(),
+           "functions": {}, "function_param_types": {}, "function_param_orders": {}, "current_function": {}}
+    for k, v in sets.items():
+        ctx[k] = set(v)
+    for n in RX_NAMES:
+        setattr(P, n, _RxProxy(n, RX_REAL[n]))
+    P._handle_assignment_ast = rec_asg
+    exc, nodes = None, None
+    try:
+        nodes = _orig_psl([line], ctx, "function", 1, loop_depth=1, main_loop=False)
+    except _Timeout:
+        raise
+    except BaseException as e:  # noqa
+        exc = type(e).__name__
+    finally:
+        for n in RX_NAMES:
+            setattr(P, n, RX_REAL[n])
+        P._handle_assignment_ast = orig_asg
+    return {"trace": [list(t) for t in RXLOG], "asg": (asg[0] if asg else None), "exc": exc,
+            "nodes": None if nodes is None else [type(x).__name__ for x in nodes],
+            "repr": None if nodes is None else repr(nodes),
+            "ignored": None if hook is None else [list(e) for e in hook]}
+
+
+def py_tokens(line):
+    """CPython's token stream of the line without positions (what the tokenizer treats as the same statement)"""
+    try:
+        toks = list(tokenize.generate_tokens(io.StringIO(line + "\n").readline))
+    except (tokenize.TokenError, SyntaxError, IndentationError):
+        return None
+    return [[t.type, t.string] for t in toks if t.type not in (tokenize.NEWLINE, tokenize.NL, tokenize.ENDMARKER, tokenize.COMMENT)]
+
+
 def main():
     req = json.load(sys.stdin)
     signal.signal(signal.SIGALRM, _alarm)
@@ -234,6 +324,14 @@ def main():
                 out.append(do_emitblock("", [["leaf", c[1]]]))
             elif op == "emitprog":
                 out.append(do_emitprog(c[1], c[2], c[3]))
+            elif op == "rxall":
+                out.append(do_rxall(c[1]))
+            elif op == "dispatch":
+                out.append(do_dispatch(c[1], c[2]))
+            elif op == "rxnames":
+                out.append(RX_NAMES)
+            elif op == "pytokens":
+                out.append(py_tokens(c[1]))
             elif op == "pycompiles":
                 try:
                     compile(src_of(c[1]), "<c07>", "exec")
